@@ -7,7 +7,7 @@
 (*            yield (10 handlers)                                          *)
 (*     post : what follows the yield (after a normal resume, or after a    *)
 (*            handler that swallowed): stop | yield | raise                *)
-(* (11 handlers) crossed with the way the with-block ends (8 outcomes).  The machine has *)
+(* (12 handlers) crossed with the way the with-block ends (8 outcomes).  The machine has *)
 (* the steps of `async with`: Enter (generator to its first yield),        *)
 (* Block (the body ends), Exit (the generator is resumed, thrown into or   *)
 (* closed -- exactly once -- and answers), Classify (__aexit__ decides).   *)
@@ -23,7 +23,7 @@ CONSTANTS OutFile
 
 Pres == {"raise", "noyield", "yield"}
 Handlers == {"none", "finally", "swallow", "reraise", "raisenew", "raisenewfromnone",
-             "raisesametype", "return", "yieldagain", "raisesai", "raisertfrom"}
+             "raisesametype", "return", "yieldagain", "raisesai", "raisertfrom", "raisert"}
 Posts == {"stop", "yield", "raise"}
 Outcomes == {"normal", "Exception", "BaseException", "StopIteration", "StopAsyncIteration",
              "RuntimeError", "GeneratorExit", "KeyboardInterrupt"}
@@ -71,6 +71,8 @@ OnThrow ==
     [] prog.h = "raisesai" -> "conv-of-new"
     \* `raise MyRuntimeError() from exc`: a RuntimeError whose __cause__ is the thrown exception;
     \* contextlib takes exactly that shape for the PEP 479 conversion when a Stop*Iteration was thrown
+    \* a plain new RuntimeError (its __context__ is the thrown exception, its __cause__ is not)
+    [] prog.h = "raisert" -> "new:RuntimeError"
     [] prog.h = "raisertfrom" -> IF IsStop(o) THEN "conv-of-value" ELSE "new:ChainedRuntimeError"
 
 \* __aexit__ resumes, throws into or closes the generator -- exactly once
